@@ -16,8 +16,12 @@ pub fn wal_only_entry() {
 
 const HDR: [u8; 16] = [b'R', b'W', b'A', b'L', 1, 0, 0, 0, 1, 0, 0, 0, 0, 0, 0, 0];
 /// encoded entry with a 1-byte payload and the given stamp (CRC of the payload is a constant)
-fn enc(ts: u64, payload: u8) -> Vec<u8> {
-    let data = vec![payload];
+fn enc(ts: u64, payload: u8) -> Vec<u8> { enc_n(ts, payload, 1) }
+/// same with a payload of n copies of the byte (n = 0: an entry that is header only)
+fn enc_n(ts: u64, payload: u8, n: usize) -> Vec<u8> {
+    let mut data = Vec::with_capacity(n);
+    let mut i = 0;
+    while i < n { data.push(payload); i += 1; }
     let e = WalEntry { checksum: crc32fast::hash(&data), data, timestamp: ts };
     let v = e.encode();
     std::mem::forget(e);
@@ -27,16 +31,16 @@ pub struct ImgReader(pub Vec<u8>);
 impl WalFileReader for ImgReader { fn read_all(&mut self) -> Result<Vec<u8>, WalError> { Ok(std::mem::take(&mut self.0)) } }
 
 /// two entries with symbolic stamps (non-monotone allowed), symbolic threshold
-pub fn entries_after() {
+pub fn entries_after(n1: usize, n2: usize) {
     let (t1, t2, th) = (vs::u64(), vs::u64(), vs::u64());
     let mut img = HDR.to_vec();
-    img.extend_from_slice(&enc(t1, 7));
-    img.extend_from_slice(&enc(t2, 9));
+    img.extend_from_slice(&enc_n(t1, 7, n1));
+    img.extend_from_slice(&enc_n(t2, 9, n2));
     let r = WalReader::open(ImgReader(img));
     vcheck!(r.is_ok(), "wal:valid image opens");
     if let Ok(rd) = r {
         let all = rd.entries();
-        vcheck!(all.len() == 2 && all[0].timestamp == t1 && all[1].timestamp == t2 && all[0].data[0] == 7 && all[1].data[0] == 9, "wal:entries() returns every intact entry in append order");
+        vcheck!(all.len() == 2 && all[0].timestamp == t1 && all[1].timestamp == t2 && all[0].data.len() == n1 && all[1].data.len() == n2 && (n1 == 0 || all[0].data[0] == 7) && (n2 == 0 || all[1].data[0] == 9), "wal:entries() returns every intact entry in append order");
         let got = rd.entries_after(th);
         let want = (if t1 >= th { 1 } else { 0 }) + (if t2 >= th { 1 } else { 0 });
         vcheck!(got.len() == want, "wal:entries_after drops an entry stamped at or above the threshold (or keeps one below)");
